@@ -49,6 +49,20 @@ var glyphServerWeave = []weave.PkgConfig{
 }
 
 var specs = map[string]*propSpec{
+	"C15": {
+		ID: "C15", Title: "JIT tiering and caching are invisible",
+		TestPkg: "pkg/jit", HarnessDir: "C15",
+		Weave:     []weave.PkgConfig{{Path: "./pkg/jit", Touch: true, L2Files: []string{"*"}}},
+		QuickSecs: 40, ThoroughSecs: 600, Chunk: 200,
+		Rule: "each run draws hot-path threshold and recompile window, then 1-5 tasks issue 3-16 operations each (CompileRoute, CompileRouteWithTypes over a colliding pool of type maps, RecordExecution bursts, CheckAdaptiveRecompilation, RecordDeoptimization, redefine = new version + InvalidateCache/ClearCache, deoptimise = new version + RecordDeoptimization, GetUnit, profiler type usage, clock advances across the window) on three route names with statement-level interleaving; every bytecode handed out is executed on a fresh VM and compared with a fresh OptNone compilation; a run is non-trivial if at least two tasks were runnable at once and a preemption happened, or a clock advance fired; distinct = distinct fingerprints (schedule hash combined with workload and fault tapes) among those",
+		Components: []component{
+			{"pkg/jit JITCompiler, SpecializationCache, Profiler, AdaptiveRecompilationTrigger, DeoptimizationTracker", "real-woven", "yield before every statement + race probes"},
+			{"pkg/compiler (all optimisation levels), pkg/parser", "real-unwoven", "atomic between seams"},
+			{"pkg/vm", "real-unwoven", "oracle executor for every bytecode handed out"},
+			{"clock", "stub", "testing/synctest fake clock"},
+		},
+		FaultKinds: []string{"clock-advance", "clock-jump"},
+	},
 	"C09": {
 		ID: "C09", Title: "async blocks are race-free, deterministic and settle once",
 		TestPkg: "cmd/glyph", HarnessDir: "C09", HarnessExtra: []string{"glyphcommon"},
